@@ -62,7 +62,9 @@ PROPS = {
              "Whenever VerifySignature accepts, an independent verifier must confirm the signature is by the claimed key over this session's secret and that the id is "
              "that key's address; other-session, other-key, mutated and malformed inputs are all exercised. A second sub-check runs histories of up to 400 sessions over "
              "up to 260 peers (returning peers, impostors, identities arriving by other ways) on one node and demands that every identity ever assigned still is the "
-             "address of the key that proved it. Exploration.",
+             "address of the key that proved it; a third drives the node's real handshake handlers from the remote end of a connection, in both directions, with honest, "
+             "other-session, other-key, wrong-claim, mutated and refused proofs, and demands that the peer is handed on as authenticated only with a valid proof over "
+             "the secret the node itself derived for this session. Exploration.",
              "trusted base: dcrd curve arithmetic, Go crypto/ecdsa, x/crypto sha3; ECDSA malleability is not decided", "DESIGN §8 (C32)"),
     "C33": P("hnet", "real onPacket on a hook-built PeerToPeer with generated peers/roles and relay sequences; decision function transcribed from the statement",
              "Every delivery to the recording callback is checked against the three stated rules (at most one delivery per flooded packet across any relaying peers, "
